@@ -11,7 +11,7 @@
 (***************************************************************************)
 EXTENDS Reader, FaultRule, TLC
 
-CONSTANTS BaseId, MaxFaults, Cap
+CONSTANTS BaseId, MaxFaults, Cap, SrcKind    \* SrcKind: "io" (std::io::Read) | "eh" (embedded-hal 0.2 serial)
 
 Bases == <<
   <<170>> \o Canonical(<<18, 27, 0, 0>>) \o Canonical(<<>>),                       \* noise, frame with withheld zeros, empty frame
@@ -35,27 +35,28 @@ Next == PutByte \/ PutFault \/ Cut
 Spec == Init /\ [][Next]_vars
 
 \* results of repeated calls until the end of input was signalled three times in a row
-RECURSIVE Until3(_, _, _, _, _, _)
-Until3(api, d, i, acc, ends, fuel) ==
-  IF ends = 3 \/ fuel = 0 THEN acc
-  ELSE LET r == Call(api, d, items, i)
-           e == IsNone(r.ev) \/ (api \in {1, 3} /\ IsEofRes(r.ev))
-       IN Until3(api, r.d, r.i, Append(acc, r.ev), IF e THEN ends + 1 ELSE 0, fuel - 1)
 RunOn(api, its) ==
   LET RECURSIVE U(_, _, _, _, _)
       U(d, i, acc, ends, fuel) ==
-        IF ends = 3 \/ fuel = 0 THEN acc
-        ELSE LET r == Call(api, d, its, i)
-                 e == IsNone(r.ev) \/ (api \in {1, 3} /\ IsEofRes(r.ev))
-             IN U(r.d, r.i, Append(acc, r.ev), IF e THEN ends + 1 ELSE 0, fuel - 1)
+        IF ends = (IF SrcKind = "eh" THEN 2 ELSE 3) \/ fuel = 0 THEN acc
+        ELSE LET r == CallS(SrcKind, api, d, its, i)
+                 e == IF SrcKind = "eh" THEN r.x                                       \* answered by the exhausted source
+                      ELSE IsNone(r.ev) \/ (api \in {1, 3} /\ IsEofRes(r.ev))
+             IN U(r.d, r.i, Append(acc, r.ev), IF e THEN ends + 1 ELSE (IF SrcKind = "eh" THEN ends ELSE 0), fuel - 1)
   IN U(InitDec(Cap), 1, <<>>, 0, Len(its) + 12)
+\* (for "eh" the run stops after the exhausted source has answered would-block twice, for "io" after three
+\* consecutive end-of-input signals)
+Ends == IF SrcKind = "eh" THEN 2 ELSE 3
 
 BytesOnly(its) == SelectSeq(its, LAMBDA x : x < 256)
 AfterFirstOth(its) ==
   LET io == FirstIdx(its, LAMBDA x : x = 302) IN IF io = 0 THEN <<>> ELSE Drop(its, io)
 
+NoInt(its) == SelectSeq(its, LAMBDA x : x # 301)
 ClausesFor(api) ==
-  FaultClauses(items, api, RunOn(api, items), RunOn(api, BytesOnly(items)), RunOn(api, AfterFirstOth(items)))
+  IF SrcKind = "eh"
+  THEN FaultClausesEh(NoInt(items), api, RunOn(api, NoInt(items)), RunOn(api, BytesOnly(items)), RunOn(api, AfterFirstOth(NoInt(items))))
+  ELSE FaultClauses(items, api, RunOn(api, items), RunOn(api, BytesOnly(items)), RunOn(api, AfterFirstOth(items)))
 
 \* C11 on the specification
 FaultsOK == done => \A api \in 0..3 : ClausesFor(api)
